@@ -7,6 +7,7 @@ by indices in minting order (the model mints in the same order); everything rand
 import base64
 import copy
 import json
+import logging
 import srv
 
 FIXED_AUTHZ = {
@@ -27,13 +28,19 @@ USERS = ["diana", "babs", "dian"]      # "dian" is a proper string prefix of "di
 CLS = {"authorization_code": 0, "access_token": 1, "refresh_token": 2, "id_token": 3}
 
 
+def registered_redirects(client):
+    """the two redirect_uris a client has on a provider built with two_redirects (the first is the only one otherwise)"""
+    return ["https://%s.example.com/cb" % client, "https://%s.example.com/cb2" % client]
+
+
 class RealSession:
     def __init__(self, oidc=True, jwt_access=False, client_over=None, revoke_refresh_on_issue=False, start=1_700_000_000,
-                 rules="explicit", empty3=False, deny=False, jwt_refresh=False, alias_kwargs=False):
+                 rules="explicit", empty3=False, deny=False, jwt_refresh=False, alias_kwargs=False, two_redirects=False):
         """rules: how the usage rules reach the provider - "explicit" (grant_config spells max_usage: 1 for codes),
         "implied" (grant_config lists supports_minting / expires_in only: the single use of a code is the library's own
         default), "per-client" (the same implied rules as token_usage_rules of every client, no grant_config rules),
-        "handler" (no usage rules at all: handler lifetimes and class defaults apply)"""
+        "handler" (no usage rules at all: handler lifetimes and class defaults apply)
+        two_redirects: every client has a second registered redirect_uri (https://<client>.example.com/cb2)"""
         self.oidc = oidc
         self.rules = rules
         over = {
@@ -41,6 +48,9 @@ class RealSession:
             "client_2": {"allowed_scopes": ["openid", "email", "address", "offline_access", "phone"]},
             "client_12": {},
         }
+        if two_redirects:
+            for c in CLIENTS:
+                over[c]["redirect_uris"] = [(u, None) for u in registered_redirects(c)]
         for k, v in (client_over or {}).items():
             over.setdefault(k, {}).update(v)
         eps = {"token": {"revoke_refresh_on_issue": revoke_refresh_on_issue}} if revoke_refresh_on_issue else None
@@ -81,6 +91,13 @@ class RealSession:
         self.parsed = []      # parsed token requests (Message or error)
         self.processed = set()
         self.presented = set()
+        # what the harness itself SENT / RECEIVED at the authorization endpoint (never read back from the provider's state):
+        self.code_req = {}      # code index -> {"client", "scope", "redirect_uri"} of the authorization request that produced it
+        self.grant_cookie = {}  # grant index -> the cookies of the latest authorization response whose code is in that grant
+        self.grant_nonce = {}   # grant index -> nonce of the authorization request that created the grant
+        self.last_cookie = None
+        self._fresh_n = 0
+        self.cookie_log = []    # one entry per authzc operation (coverage bookkeeping)
         self.ep = {k: self.server.get_endpoint(k) for k in
                    ["authorization", "token", "introspection", "token_revocation"] + (["userinfo"] if oidc else [])}
 
@@ -165,19 +182,55 @@ class RealSession:
         req.update(extra or {})
         ep = self.ep["authorization"]
         n0 = len(self.tokens)
+        g0 = len(self.grants)
         preq = ep.parse_request(req)
         e = self.err_of(preq)
         if e:
             return ["err", e]
-        res = ep.process_request(preq, http_info={"cookie": cookie} if cookie else None)
+        lg = logging.getLogger("idpyoidc.server.oauth2.authorization")
+        lvl = lg.level
+        if cookie:      # a cookie of a dead session makes the endpoint log the traceback of the login page it cannot render
+            lg.setLevel(logging.CRITICAL)
+        try:
+            res = ep.process_request(preq, http_info={"cookie": cookie} if cookie else None)
+        finally:
+            lg.setLevel(lvl)
         self.last_cookie = res.get("cookie") if isinstance(res, dict) else None
         self.find_new_grants()
         new = self.harvest()
+        for gi in range(g0, len(self.grants)):
+            self.grant_nonce.setdefault(gi, req.get("nonce"))
+        for i in new:
+            if self.tokobj[i].token_class == "authorization_code":
+                self.code_req[i] = {"client": client, "scope": list(scope), "redirect_uri": req["redirect_uri"]}
+                if self.last_cookie:
+                    self.grant_cookie[self.tok_grant[i]] = self.last_cookie
+        if isinstance(res, dict) and "http_response" in res and "response_args" not in res:
+            return ["login"]      # the provider wants the user to authenticate (again); nothing was issued
         ra = res.get("response_args") if isinstance(res, dict) else res
         e = self.err_of(ra) if ra is not None else None
         if e:
             return ["err", e, new]
         return ["ok", new, sorted(ra.get("scope", [])) if ra is not None and "scope" in ra else None]
+
+    def op_authzc(self, prev, user, client, scope, redirect, fresh):
+        """An authorization request from a browser that presents the session cookie the provider set when it answered the
+        latest authorization whose code is in grant `prev` (no cookie if there is no such grant).  `user` is who would log in
+        if the provider asked for a login.  fresh False: state and nonce are those of the request that created grant `prev`
+        (the very same request again, as far as scope / redirect_uri / client say so); True: a nonce never used before."""
+        cookie = self.grant_cookie.get(prev) if prev < len(self.grants) else None
+        if fresh or prev not in self.grant_nonce:
+            self._fresh_n += 1
+            nonce = "nonce-fresh-%d" % self._fresh_n
+        else:
+            nonce = self.grant_nonce[prev]
+        first = next((i for i in sorted(self.code_req) if self.tok_grant[i] == prev), None)
+        log = {"cookie": bool(cookie), "held": self.code_req.get(first), "grant": list(self.grants[prev][2:4]) if prev < len(self.grants) else None,
+               "grants_before": len(self.grants)}
+        self.cookie_log.append(log)
+        out = self.op_authz(user, client, scope, extra={"nonce": nonce, "redirect_uri": redirect}, cookie=cookie)
+        log["grants_after"] = len(self.grants)
+        return out
 
     def _token_req(self, client, body):
         req = dict(body)
@@ -199,14 +252,33 @@ class RealSession:
         cred = base64.b64encode(("%s:%s" % (client, self.secret(client))).encode()).decode()
         return self.ep["token"].parse_request(req, http_info={"headers": {"authorization": "Basic " + cred}})
 
+    def redirect_for(self, client, ref, kind):
+        """the redirect_uri a token request carries.  "same": the one the harness SENT in the authorization request that
+        produced the code (for anything that is no code: the first registered one of its client); "alt": the client's other
+        registered one; "other": one that is not registered; "absent": none; an URL: that URL."""
+        if kind == "absent":
+            return None
+        if kind == "other":
+            return "https://evil.example.com/cb"
+        if kind.startswith("https://"):
+            return kind
+        owner = self._owner_client(ref, client)
+        own = "https://%s.example.com/cb" % owner
+        if ref[0] == "tok" and ref[1] in self.code_req:
+            own = self.code_req[ref[1]]["redirect_uri"]
+        if kind == "same":
+            return own
+        if kind == "alt":
+            return next(u for u in registered_redirects(owner) if u != own)
+        raise ValueError(kind)
+
     def op_tparse(self, client, ref, redirect="same"):
         req = {"grant_type": "authorization_code", "code": self.tokval(ref)}
         if ref[0] == "tok":
             self.presented.add(ref[1])
-        if redirect == "same":
-            req["redirect_uri"] = "https://%s.example.com/cb" % self._owner_client(ref, client)
-        elif redirect == "other":
-            req["redirect_uri"] = "https://evil.example.com/cb"
+        uri = self.redirect_for(client, ref, redirect)
+        if uri is not None:
+            req["redirect_uri"] = uri
         p = self._token_parse(client, req, ref)
         self.parsed.append(p)
         e = self.err_of(p)
@@ -391,14 +463,11 @@ def coq_op(rs, op):
     k = op[0]
     if k == "authz":
         return "(Authorize %s %s %s)" % (coq_str(op[1]), coq_str(op[2]), coq_strs(op[3]))
+    if k == "authzc":
+        return "(AuthorizeCookie %s %s %s %s %s %s)" % (coq_nat(op[1]), coq_str(op[2]), coq_str(op[3]), coq_strs(op[4]), coq_str(op[5]), coq_bool(op[6]))
     if k == "tparse":
-        red = op[3] if len(op) > 3 else "same"
-        if red == "same":
-            r = "(Some %s)" % coq_str("https://%s.example.com/cb" % rs._owner_client(op[2], op[1]))
-        elif red == "other":
-            r = "(Some %s)" % coq_str("https://evil.example.com/cb")
-        else:
-            r = "None"
+        uri = rs.redirect_for(op[1], op[2], op[3] if len(op) > 3 else "same")
+        r = "None" if uri is None else "(Some %s)" % coq_str(uri)
         return "(TokenParse %s %s %s)" % (coq_str(op[1]), coq_ref(op[2]), r)
     if k == "rparse":
         sc = op[3] if len(op) > 3 else None
@@ -437,10 +506,12 @@ def coq_out(op, out):
         return "(OErr %s)" % ERR.get(out[1], "EOther")
     if k == "inactive":
         return "OInactive"
+    if k == "login":
+        return "OLogin"
     if k == "active":
         cls = {"access_token": "Access", "refresh_token": "Refresh"}.get(out[4], "Code")
         return "(OActive %s %s %s)" % (coq_strs(out[1]), coq_str(out[2] or ""), cls)
-    if op[0] == "authz":
+    if op[0] in ("authz", "authzc"):
         return "(OAuthz %s %s)" % (coq_nat(out[1][0]) if out[1] else "0%nat", coq_strs(sorted(out[2] or [])))
     if op[0] == "proc":
         d = out[1]
@@ -522,16 +593,67 @@ def gen_multi_prefix(rng):
     return plan
 
 
-def gen_history(rng, n, focus="mixed"):
+def gen_cookie_prefix(rng):
+    """Authorizing again within one browser session.  A first authorization whose code stays PENDING, then one to three
+    authorization requests carrying the provider's session cookie (same / other client, same / other registered
+    redirect_uri, same / narrower / wider / disjoint / reordered scope, same or new state and nonce), then every code is
+    presented with each registered redirect_uri (in either order), and what was minted is refreshed, used at userinfo and
+    introspected.  Sometimes the first code is redeemed, or the first grant revoked / removed / expired, BEFORE the cookie
+    comes back."""
+    u = rng.choice(USERS)
+    cl = rng.choice(CLIENTS)
+    base = ["openid", "offline_access"] + rng.sample(["profile", "email", "address", "phone", "custom"], rng.randint(1, 3))
+    if rng.random() < 0.25:
+        base.remove("offline_access")
+    rng.shuffle(base)
+    plan = []
+    if rng.random() < 0.3:       # other sessions exist already
+        plan += [("authz", rng.choice(USERS), rng.choice(CLIENTS), rng.sample(SCOPES, 3)), ("natural", rng.random(), rng.random())]
+    first_alt = rng.random() < 0.3
+    plan.append(("authzc", 2.0, 0.0, 0.0, ("fixed", u, cl, base, first_alt), 1.0))      # no cookie: the login (on either registered redirect_uri)
+    r = rng.random()
+    if r < 0.15:
+        plan += [("natural", rng.random(), rng.random()), ("natural", rng.random(), rng.random())]       # redeemed first
+    elif r < 0.22:
+        plan.append((rng.choice(["revoke_grant", "remove_grant", "revoke_client", "revoke_user"]), 0.999))
+    elif r < 0.28:
+        plan.append(("tick", rng.choice([299, 301, 3599, 3600, 3601, 43201])))
+    for j in range(rng.choice([1, 1, 2, 3])):
+        # (kind, which grant's cookie, who/where, scope variant, redirect / freshness, ...)
+        plan.append(("authzc", 0.999 if rng.random() < 0.8 else rng.random(), rng.random(), rng.random(), rng.random(), rng.random()))
+        if rng.random() < 0.2:
+            plan.append(("tick", rng.choice([1, 10, 100, 299])))
+    reds = ["same", "alt"] if rng.random() < 0.5 else ["alt", "same"]
+    for red in reds + (["other"] if rng.random() < 0.2 else []):
+        for slot in (0.0, 0.34, 0.67, 0.99):
+            plan += [("tparse_code", slot, red), ("proc", 0.0, 0.0)]
+    for _ in range(rng.randint(3, 8)):
+        r = rng.random()
+        if r < 0.35:
+            plan += [("rparse", rng.random(), 0.0, rng.random() * 0.8 + 0.16), ("natural", rng.random(), rng.random())]
+        elif r < 0.6:
+            plan.append(("userinfo", rng.random()))
+        elif r < 0.9:
+            plan.append(("introspect", rng.random(), rng.random() * 0.9))
+        else:
+            plan.append(("authzc", rng.random(), rng.random(), rng.random(), rng.random(), rng.random()))
+    return plan
+
+
+def gen_history(rng, n, focus="mixed", p_cookie=0.0):
     """Generate a plan of abstract ops; token / grant / parsed indices are chosen relative to what exists
-    when the op runs (resolved by `materialise`).  focus "multi": the history starts with gen_multi_prefix."""
-    plan = gen_multi_prefix(rng) if focus == "multi" else []
+    when the op runs (resolved by `materialise`).  focus "multi": the history starts with gen_multi_prefix; focus
+    "cookie": it starts with gen_cookie_prefix.  p_cookie: the share of the authorization requests of the random part that
+    come with a session cookie."""
+    plan = gen_multi_prefix(rng) if focus == "multi" else gen_cookie_prefix(rng) if focus == "cookie" else []
     for i in range(len(plan), max(n, len(plan) + 8) if plan else n):
         r = rng.random()
         if i > 0 and rng.random() < 0.45:
             plan.append(("natural", rng.random(), rng.random()))
             continue
-        if i == 0 or r < 0.16:
+        if i > 0 and r < 0.16 and p_cookie and rng.random() < p_cookie:
+            plan.append(("authzc", rng.random(), rng.random(), rng.random(), rng.random(), rng.random()))
+        elif i == 0 or r < 0.16:
             sc = rng.sample(SCOPES, rng.randint(0, 5))
             if rng.random() < 0.7 and "openid" not in sc:
                 sc.insert(0, "openid")
@@ -580,8 +702,84 @@ def pick_token(rs, x, want=None, p_wrong=0.15, xx=None):
     return ("tok", ids[int(x * len(ids)) % len(ids)])
 
 
+def _fit_scope(rs, client, sc):
+    """what materialise does to the scope of every generated authorization request"""
+    sc = list(sc)
+    if rs.oidc and "openid" not in sc:     # an OIDC authorization request must ask for openid
+        sc.insert(0, "openid")
+    if getattr(rs, "deny", False) and client != "client_1":
+        al = rs.ctx.cdb[client].get("allowed_scopes")
+        if al is not None:
+            sc = [x for x in sc if x in al]
+        sc = [x for x in sc if x in SCOPES_KNOWN]
+        if not sc:      # with the policy on, a request without any scope parameter is outside the modelled fragment
+            sc = [(al or SCOPES_KNOWN)[-1]] if (al or SCOPES_KNOWN) else sc
+    return sc
+
+
+def materialise_authzc(rs, p):
+    """("authzc", x_prev, x_who, x_scope, x_redirect | ("fixed", user, client, scope, alt), x_fresh)"""
+    _, xp, xw, xs, xr, xf = p
+    two = len(rs.ctx.cdb[CLIENTS[0]]["redirect_uris"]) > 1
+    if isinstance(xr, tuple):      # the login that opens a browser session: no cookie
+        _, u, cl, sc, alt = xr
+        sc = _fit_scope(rs, cl, sc)
+        if not two or (rs.rules == "per-client" and getattr(rs, "model_compared", True)):
+            return ("authz", u, cl, sc)
+        return ("authzc", len(rs.grants), u, cl, sc, registered_redirects(cl)[1 if alt else 0], True)
+    if not rs.grants:
+        return ("authz", USERS[int(xw * 3) % 3], CLIENTS[int(xs * 3) % 3], _fit_scope(rs, CLIENTS[int(xs * 3) % 3], ["openid", "email", "offline_access"]))
+    # whose cookie: mostly a grant that still has a pending code (xp close to 1: the latest such grant)
+    pending = [gi for gi, (sid, g, u, c) in enumerate(rs.grants)
+               if any(t.token_class == "authorization_code" and t.used == 0 and not t.revoked for t in g.issued_token)]
+    pool = pending if pending and xp >= 0.2 else list(range(len(rs.grants)))
+    prev = pool[min(int(xp * len(pool)), len(pool) - 1)]
+    if xp < 0.04:
+        prev = len(rs.grants)      # a browser without cookie
+    _, g, gu, gc = rs.grants[min(prev, len(rs.grants) - 1)]
+    client = gc if xw < 0.85 else CLIENTS[int(xw * 100) % 3]
+    user = gu if (xw * 7) % 1 < 0.8 else USERS[int(xw * 1000) % 3]
+    held = list(g.authorization_request.get("scope", [])) if prev < len(rs.grants) else ["openid", "email"]
+    v = xs
+    if v < 0.34:
+        sc = list(held)                                                  # the same
+    elif v < 0.54:
+        sc = held[:max(1, len(held) // 2)]                               # narrower
+        if rs.oidc and "openid" in held and "openid" not in sc:
+            sc = ["openid"] + sc[:-1] if len(sc) > 1 else ["openid"]
+    elif v < 0.74:
+        sc = held + [x for x in SCOPES if x not in held][:1 + int(v * 100) % 3]      # wider
+    elif v < 0.84:
+        sc = [x for x in SCOPES if x not in held][:3]                    # disjoint
+    elif v < 0.92:
+        sc = list(reversed(held))                                        # the same set in another order
+    else:
+        sc = [x for i, x in enumerate(SCOPES) if int(v * 1000) >> i & 1]
+    sc = _fit_scope(rs, client, sc)
+    if not two or (rs.rules == "per-client" and getattr(rs, "model_compared", True)):
+        # (a provider whose usage rules are configured per client only gives the grant it makes for a cookie request no usage
+        # rules at all; the model's configuration is per provider, so these providers see no cookie requests here)
+        return ("authz", user, client, sc)
+    own = g.authorization_request.get("redirect_uri") if prev < len(rs.grants) else registered_redirects(client)[0]
+    uris = registered_redirects(client)
+    redirect = own if (client == gc and xr < 0.5) else uris[1] if (own == uris[0] or client != gc and xr < 0.75) else uris[0]
+    if xs < 0.12 and client == gc and prev < len(rs.grants):
+        return ("authzc", prev, user, client, sc, own, False)      # the identical request once more
+    return ("authzc", prev, user, client, sc, redirect, xf < 0.5)
+
+
 def materialise(rs, p):
     k = p[0]
+    if k == "authzc":
+        return materialise_authzc(rs, p)
+    if k == "tparse_code":
+        # the slot-th code (by position among all codes ever issued), presented by its own client with redirect variant p[2]
+        codes = [i for i, t in enumerate(rs.tokobj) if t.token_class == "authorization_code"]
+        if not codes:
+            return ("tick", 1)
+        i = codes[min(int(p[1] * len(codes)), len(codes) - 1)]
+        red = p[2] if len(rs.ctx.cdb[CLIENTS[0]]["redirect_uris"]) > 1 or p[2] != "alt" else "other"
+        return ("tparse", rs.grants[rs.tok_grant[i]][3], ("tok", i), red)
     if k in ("authz", "authz_fixed"):
         sc = list(p[3])
         if k == "authz" and rs.grants and (hash((p[1], p[2], len(rs.tokens))) % 3 == 0):
@@ -625,6 +823,8 @@ def materialise(rs, p):
         owner = rs._owner_client(ref, CLIENTS[0])
         client = owner if p[2] < 0.85 else CLIENTS[int(p[2] * 100) % 3]
         red = "same" if p[3] < 0.85 else ("other" if p[3] < 0.95 else "absent")
+        if len(rs.ctx.cdb[CLIENTS[0]]["redirect_uris"]) > 1 and 0.75 <= p[3] < 0.9:
+            red = "alt"      # the client's OTHER registered redirect_uri
         return ("tparse", client, ref, red)
     if k == "rparse":
         ref = pick_token(rs, p[1], 2, xx=p[3])
